@@ -243,6 +243,12 @@ func (w *World) harnessOrLiveness() {
 	if w.Spec.Liveness != nil || w.Spec.Property == "C01" || w.Spec.Property == "C15" {
 		return
 	}
+	if w.datagramFaultsConfigured() {
+		// a safety-only run (faults without a fairness budget): progress is not promised, and
+		// thousands of tiny segments under 25 % loss can simply take longer than the cap
+		w.probe("cap-hit-in-safety-only-run")
+		return
+	}
 	w.harness("virtual-time cap hit: %s", w.describeSessions())
 }
 
